@@ -42,6 +42,8 @@ type vfRRScript struct {
 		WFail bool `json:"wfail"`
 		// RFail (icpt level, rtp): the wrapped reader fails - the error is passed up and nothing is accounted (no event)
 		RFail bool `json:"rfail"`
+		// Stale (icpt level, rtp): through the reader the stream had before its last Unbind (no event)
+		Stale bool `json:"stale"`
 	} `json:"steps"`
 }
 
@@ -231,6 +233,7 @@ func vfRunRRIcpt(t *testing.T, sc *vfRRScript, out *vfWriter) {
 		next   []byte
 	}
 	streams := map[uint32]*bound{}
+	staleStreams := map[uint32]*bound{} // the binding a stream had before its last Unbind
 	buf := make([]byte, 1500)
 	for _, st := range sc.Steps {
 		switch st.A {
@@ -251,10 +254,14 @@ func vfRunRRIcpt(t *testing.T, sc *vfRRScript, out *vfWriter) {
 				unb := *b.info // an equal description at another address
 				ic.UnbindRemoteStream(&unb)
 				delete(streams, st.S)
+				staleStreams[st.S] = b
 			}
 			out.Emit(vfM{"a": "unbind", "s": st.S})
 		case "rtp":
 			b := streams[st.S]
+			if st.Stale { // a read that was in flight when the stream was removed: through the reader of the OLD binding,
+				b = staleStreams[st.S] // accounted to nothing (no event)
+			}
 			if b == nil {
 				continue
 			}
@@ -280,6 +287,9 @@ func vfRunRRIcpt(t *testing.T, sc *vfRRScript, out *vfWriter) {
 			}
 			if n, _, err := b.reader.Read(buf, interceptor.Attributes{}); err != nil || n != len(raw) {
 				t.Fatalf("VERIF-INFRA read: n=%d err=%v", n, err)
+			}
+			if st.Stale {
+				continue
 			}
 			out.Emit(vfM{"a": "rtp", "s": st.S, "w": st.W, "ts": st.Ts, "t": st.T})
 		case "sr":
